@@ -399,6 +399,9 @@ func runC13(s *Sim) {
 	// the rule's id) to the point conditions, so in these runs every point condition filters on a type.
 	var sched *schedSpec
 	if wl.Chance(1, 4) {
+		// no feedback in these runs: a rule that writes into its own scope may oscillate for ever once a tick has set it
+		// off, and the clock moves below have no step cap
+		feedback = false
 		sp := schedSpec{}
 		pickMin := func() int {
 			if wl.Chance(1, 5) {
@@ -446,6 +449,11 @@ func runC13(s *Sim) {
 				return
 			}
 			for _, p := range w.Pts {
+				if p.Type == data.PointTypeActive {
+					// the rule has just evaluated its schedule (this point is the first thing it publishes when the
+					// condition flips): the model follows at this position of the stream, before whatever the flip causes
+					model.evalSched(p.Time)
+				}
 				if p.Type == data.PointTypeActive && (p.Value != 0) != sp.active(p.Time) {
 					s.Fail("C13", "schedule-condition-active", "the rule marked its schedule condition active=%v at %s (%s), the trigger time falls %s the window (start=%s end=%s weekdays=%v dates=%v)",
 						p.Value != 0, p.Time.UTC().Format(time.RFC3339Nano), p.Time.UTC().Weekday(), map[bool]string{true: "inside", false: "outside"}[sp.active(p.Time)], c.Start, c.End, c.Weekdays, c.Dates)
@@ -462,6 +470,13 @@ func runC13(s *Sim) {
 		if wl.Chance(1, 4) {
 			a.ValueType = data.PointValueText
 			a.ValueText = textPool[wl.Draw(len(textPool))]
+		}
+		switch wl.Draw(8) { // a half-configured action (what the UI creates before the target is filled in): it reports an
+		// error, writes nothing and is marked like the others; the rest of its list still runs
+		case 0:
+			a.NodeID = ""
+		case 1:
+			a.PointType = ""
 		}
 		return a
 	}
